@@ -465,6 +465,68 @@ def coarse(nterm):
     return re.sub(r"\$\d+", "$", "".join(out))
 
 
+_CAST_RX = re.compile(r" as ([ui])(8|16|32|64|128|size)\b")
+_W = {"8": 8, "16": 16, "32": 32, "64": 64, "128": 128, "size": 64}
+
+
+def widened_from(site_term, row_term):
+    """the site's term is the row's with integer casts to a wider type of the same signedness (and nothing else changed)."""
+    if _CAST_RX.sub(" as #", site_term) != _CAST_RX.sub(" as #", row_term) or site_term == row_term:
+        return None
+    cs, cr = _CAST_RX.findall(site_term), _CAST_RX.findall(row_term)
+    if len(cs) != len(cr) or not cs:
+        return None
+    for (ss, ws), (sr, wr) in zip(cs, cr):
+        if ss != sr or _W[ws] < _W[wr]:
+            return None
+    return [sr + wr for sr, wr in cr]
+
+
+def casts_lossless_into(s, row_tys):
+    """every integer cast behind the operands of the site's assert converts from a type whose whole range fits the type the
+    reviewed code cast to: both casts keep the value, so the site computes on the same numbers as the reviewed one (in a
+    wider type)."""
+    b = s.body
+    t = b.term(s.bb)
+    if t["k"] != "assert":
+        return False
+    env = Env(b)
+    found = []
+
+    def walk(o, depth):
+        p = op_place(o)
+        if p is None or depth <= 0:
+            return
+        q = {"l": p["l"], "p": []} if p["p"] and isinstance(p["p"][0], dict) and p["p"][0].get("f") == 0 else (p if not p["p"] else None)
+        if q is None or q["l"] in b.names or q["l"] <= b.argc:
+            return
+        d = b.single_def(q["l"])
+        if d is None:
+            return
+        if d[2] == "rv":
+            rv = d[3]
+            if rv["k"] == "cast" and rv["kind"].startswith("IntToInt"):
+                found.append(env.op_ty(rv["o"]))
+                walk(rv["o"], depth - 1)
+            elif rv["k"] == "use":
+                walk(rv["o"], depth - 1)
+            elif rv["k"] == "bin":
+                walk(rv["a"], depth - 1)
+                walk(rv["b"], depth - 1)
+        elif d[2] == "call":
+            for a in d[3]["args"]:
+                walk(a, depth - 1)
+    for o in t["ops"]:
+        walk(o, 5)
+    if len(found) != len(row_tys):
+        return False
+    for src, rt in zip(found, row_tys):
+        rs, rr = ty_range(src or ""), ty_range(rt)
+        if not (rs and rr and rs[0] >= rr[0] and rs[1] <= rr[1]):
+            return False
+    return True
+
+
 def _auto(s, how):
     s.status = "auto"
     s.how = how
@@ -643,6 +705,13 @@ def inventory(ctx, F, scope, table, rule="R-INV", kinds=None):
             same_fn = [r for r in all_rows if r["kind"] == s.kind and any(x.split("::{closure")[0] == root for x in r.get("in", []))]
             rows = [r for r in same_fn if (r["nterm"] if "nterm" in r else r.get("term", "")) == s.nterm] + \
                    [r for r in same_fn if coarse(r["nterm"] if "nterm" in r else r.get("term", "")) == coarse(s.nterm)]
+            # (c) the same term computed in a wider integer type: every cast goes to a wider type than the reviewed one and
+            # both keep the value of what they convert — the reviewed bound on the operands holds with room to spare
+            if not rows:
+                for r in same_fn:
+                    wt = widened_from(s.nterm, r["nterm"] if "nterm" in r else r.get("term", ""))
+                    if wt and casts_lossless_into(s, wt):
+                        rows.append(r)
         if True:
             done = False
             why = []
